@@ -20,10 +20,51 @@ def translate_invhash(chk=None):
     return True, ""
 
 
+def _translate_float(target, chk):
+    """regenerate PMH/Model/<target>.lean from the Rust source (written only if changed)"""
+    import translate_float as T
+    dst = os.path.join(VERIF, "lean", "PMH", "Model", target + ".lean")
+    try:
+        txt, info = T.translate(target)
+    except T.TErr as e:
+        return False, "translate_float.py (%s): %s" % (target, e)
+    except Exception as e:      # a parser crash is a translator failure too
+        return False, "translate_float.py (%s) crashed: %r" % (target, e)
+    old = open(dst).read() if os.path.exists(dst) else None
+    if old != txt:
+        open(dst, "w").write(txt)
+    if chk is not None:
+        chk.cov.setdefault("translators", []).append({"source": T.TARGETS[target]["file"], "target": "PMH/Model/%s.lean" % target,
+                                                      "functions": info, "regenerated": old != txt})
+    return True, ""
+
+
+def translate_jaccard_bounds(chk=None):
+    """C07: Model/JaccardBoundsGen.lean from SetSketchParams::get_jaccard_bounds"""
+    return _translate_float("JaccardBoundsGen", chk)
+
+
+def translate_exp01(chk=None):
+    """C16: Model/Exp01Gen.lean from ExpRestricted01::{new, sample}"""
+    return _translate_float("Exp01Gen", chk)
+
+
+def translate_shared(chk=None):
+    """every property: the driver executes the generated definitions, so they are refreshed before it is built.
+    A translator failure is fatal only for the properties that list the translator under `pre`; for the others the
+    previous generated file stays and the correspondence run is what speaks."""
+    for f in (translate_jaccard_bounds, translate_exp01):
+        ok, d = f(None)
+        if not ok and chk is not None:
+            chk.cov.setdefault("translator_notes", []).append(d)
+    return True, ""
+
+
 if __name__ == "__main__":
     if len(sys.argv) > 1 and sys.argv[1] == "all":
-        ok, d = translate_invhash()
-        print("translate_invhash:", "ok" if ok else d)
+        for f in (translate_invhash, translate_jaccard_bounds, translate_exp01):
+            ok, d = f()
+            print(f.__name__ + ":", "ok" if ok else d)
 
 
 def miri_sig(chk):
